@@ -12,6 +12,7 @@ from dalimc.core.explorer import explore
 from dalimc.env import gear102 as G
 
 ID = "C07"
+OPTIMISED_STRIDE = {"quick": 10, "thorough": 20}      # every k-th shard once more in an interpreter started with -O
 LEVEL = "model_checking"
 ENGINE = "E2"
 TECHNIQUE = "stateless exploration of the real Commissioning generator against a population of spec-model gear: all random-draw histories within R rounds (slice A) and all configurations x scripted draw patterns (slice B)"
